@@ -708,6 +708,21 @@ class Env:
             _raise_here(e)
         raise AssertionError(f"unknown attempt kind {kind!r}")
 
+    def peek_step(self) -> dict:
+        cs = self.cs()
+        k = cs.n.get("op", 0) + 1
+        return self._untie(cs.attempts[min(k - 1, len(cs.attempts) - 1)])
+
+    def op_sync_signalled(self):
+        """The operation was started on the worker; an interruption is raised in the thread waiting for it."""
+        cs, k, step = self._op_pre()
+        lab = f"c{cs.cid}a{k}"
+        e = FAULT_EXC[step["exc"]]("B" + lab)
+        cs.objects["B" + lab] = e
+        self.fired("signal_while_waiting")
+        self.ev("OP_END", k=k, kind="base", exc=step["exc"], obj="B" + lab, signal=True)
+        raise e
+
     def peek_op_dur(self) -> int:
         cs = self.cs()
         k = cs.n.get("op", 0) + 1
